@@ -192,7 +192,8 @@ The per-field canvas of `overlap_arrays` takes the dtype of `name_arrays[0]`: th
 field, or `float64` when the first array lacks the field (the NaN stand-in `np.full(shape, nan)`).
 The finished canvas is then assigned into the field of the merged array, which casts to the
 field's dtype.  Three dtype classes are modelled: `f8`, `f4` (every generated value and sum is
-exactly representable, the mean's division is rounded by the harness's canonicaliser) and `i8`:
+exactly representable, the mean's division is rounded by the harness's canonicaliser) and `i8`
+(`b1`, boolean images, occurs in the plain variant `overlapD` below only; the driver rejects it in a field):
 
 * integer canvas (the first array has the field): `overlap[visits == 0] = nan` raises `ValueError`
   (mean/sum, whatever the mask holds); otherwise the mean's in-place true division raises
@@ -201,7 +202,7 @@ exactly representable, the mean's division is rounded by the harness's canonical
 * NaN cast to an integer is platform dependent (NumPy warns "invalid value encountered in cast"):
   the model marks such a pixel as undefined (`none`) and the harness does not compare it. -/
 
-inductive DT | f8 | f4 | i8
+inductive DT | f8 | f4 | i8 | b1
   deriving DecidableEq, Repr
 
 structure DArr where
@@ -260,5 +261,210 @@ def overlapStructuredD (spc : Bool) (m : Mode) (fill : V) (ndim : Nat) (arrs : L
   let descr := mergedDescr arrs
   if hasDup (descr.map (·.1)) then .error "ValueError"
   else descr.mapM (fun d => (fieldOutcome spc m fill ndim arrs d.1 d.2).map (fun r => (d.1, d.2, r)))
+
+end Pew.Overlap
+
+namespace Pew.Overlap
+
+/-! ## the plain merge with image dtypes and infinite pixel values (`overlapD`)
+
+`overlap_arrays` accepts a list that mixes `float64`, `float32`, integer and boolean images.  The
+canvas takes the dtype of `arrays[0]`; every write into it casts: `np.full(new_shape, fill, dtype)`,
+`overlap[slice][~nans] = array[~nans]` (replace), `overlap[slice] = np.nansum([overlap[slice], array])`
+(mean / sum: the stacked pair is promoted to `float64` unless both are integer / boolean, the sum is
+exact for the values the harness produces, the assignment casts it back into the canvas),
+`overlap[visits == 0] = fill`.  `np.isnan` of an integer or boolean image is `False` everywhere: only
+floating-point images can withhold a pixel.  Integer dtypes are one class `i8` (the harness uses a
+concrete integer dtype only where every value and partial sum lies in its range).
+
+Values are `EV`: NaN, +∞, −∞ or an exact finite number.  Casting NaN or ±∞ into an integer canvas is
+platform dependent (NumPy warns, here `INT64_MIN`); inside an integer canvas the constructor `nan`
+stands for that undefined content (a real NaN cannot be there) and the driver prints it as `undef`.
+Arithmetic on it is NOT modelled: the harness does not judge a case with an integer canvas and an
+infinite value or fill (an undefined pixel is only ever overwritten, in replace mode).
+
+Integer canvas: `overlap[visits == 0] = nan` raises `ValueError` (mean / sum, whatever the mask
+holds), `= ±inf` raises `OverflowError`, the mean's in-place true division raises `UFuncTypeError`
+(a `TypeError`); boolean canvas: only the division raises. -/
+
+inductive EV | nan | pinf | ninf | fin (x : Rat)
+  deriving DecidableEq
+
+namespace EV
+
+def isNan : EV → Bool
+  | nan => true
+  | _ => false
+
+/-- IEEE addition, exact on finite values -/
+def add : EV → EV → EV
+  | nan, _ => nan
+  | _, nan => nan
+  | pinf, ninf => nan
+  | ninf, pinf => nan
+  | pinf, _ => pinf
+  | _, pinf => pinf
+  | ninf, _ => ninf
+  | _, ninf => ninf
+  | fin x, fin y => fin (x + y)
+
+/-- what `np.nansum` makes of one operand: NaN counts as zero -/
+def nz : EV → EV
+  | nan => fin 0
+  | v => v
+
+/-- division by a visit count -/
+def divNat : EV → Nat → EV
+  | fin x, n => fin (x / (n : Rat))
+  | v, _ => v
+
+end EV
+
+/-- `np.nansum([canvas, array], axis=0)` on one pixel -/
+def nansum2E (x y : EV) : EV := x.nz.add y.nz
+
+/-- assignment of a value into a canvas of dtype `dt` -/
+def castC : DT → EV → EV
+  | .i8, .fin x => .fin (truncR x)
+  | .i8, _ => .nan                                   -- undefined content (NaN / ±∞ cast to an integer)
+  | .b1, .fin x => .fin (if x = 0 then 0 else 1)
+  | .b1, _ => .fin 1                                 -- NaN and ±∞ are truthy
+  | _, v => v
+
+/-- an input image with its dtype -/
+structure ArrE where
+  off : List Int
+  shape : List Nat
+  dt : DT
+  get : Idx → EV
+
+/-- footprint of the image (values forgotten) -/
+def ArrE.bare (a : ArrE) : Arr := { off := a.off, shape := a.shape, get := fun _ => none }
+
+def ArrE.at (a : ArrE) (p : Idx) : Option EV :=
+  if a.bare.inside p then some (a.get (sub p a.off)) else none
+
+structure CellE where
+  acc : EV
+  visits : Nat
+
+def stepD (cdt : DT) (m : Mode) (c : Idx → CellE) (a : ArrE) : Idx → CellE := fun p =>
+  match a.at p with
+  | none => c p
+  | some v =>
+    let visits := (c p).visits + (if v.isNan then 0 else 1)
+    match m with
+    | .replace => { acc := if v.isNan then (c p).acc else castC cdt v, visits := visits }
+    | _ => { acc := castC cdt (nansum2E (c p).acc v), visits := visits }
+
+def initD (cdt : DT) (m : Mode) (fill : EV) : Idx → CellE := fun _ =>
+  { acc := castC cdt (if m = .replace then fill else .fin 0), visits := 0 }
+
+def finishD (cdt : DT) (m : Mode) (fill : EV) (c : CellE) : EV :=
+  match m with
+  | .replace => c.acc
+  | .sum => if c.visits = 0 then castC cdt fill else c.acc
+  | .mean =>
+    if c.visits = 0 then castC cdt fill
+    else if c.visits > 1 then c.acc.divNat c.visits else c.acc
+
+/-- the canvas pixel computed by the code on a canvas of dtype `cdt`, for normalised offsets -/
+def mechD (cdt : DT) (m : Mode) (fill : EV) (arrs : List ArrE) (p : Idx) : EV :=
+  finishD cdt m fill (arrs.foldl (stepD cdt m) (initD cdt m fill) p)
+
+/-! ### specification -/
+
+/-- non-NaN values the inputs place at `p`, in input order (±∞ are values) -/
+def contribsE (arrs : List ArrE) (p : Idx) : List EV :=
+  arrs.filterMap (fun a => match a.at p with
+    | some v => if v.isNan then none else some v
+    | none => none)
+
+/-- the sum of a list of values in IEEE arithmetic (exact on finite values: the order does not matter, `sumE_perm`) -/
+def sumE : List EV → EV
+  | [] => .fin 0
+  | v :: l => v.add (sumE l)
+
+/-- what the property demands of one pixel -/
+def specE (m : Mode) (fill : EV) (arrs : List ArrE) (p : Idx) : EV :=
+  match contribsE arrs p with
+  | [] => fill
+  | c :: cs =>
+    match m with
+    | .replace => (c :: cs).getLast (by simp)
+    | .sum => sumE (c :: cs)
+    | .mean => (sumE (c :: cs)).divNat (c :: cs).length
+
+/-- the demanded value as a canvas of dtype `cdt` holds it -/
+def specD (cdt : DT) (m : Mode) (fill : EV) (arrs : List ArrE) (p : Idx) : EV :=
+  castC cdt (specE m fill arrs p)
+
+/-- a finite integer -/
+def EV.intVal : EV → Bool
+  | .fin x => x.den == 1
+  | _ => false
+
+/-- a finite number that is not negative -/
+def EV.nonnegVal : EV → Bool
+  | .fin x => decide (0 ≤ x)
+  | _ => false
+
+/-- the hypothesis of theorem `pixel_specD` at one pixel (the driver evaluates it): replace mode: none;
+mean / sum on a floating-point canvas: the IEEE sum of the contributions is not NaN (+∞ and −∞ do not
+meet); sum on an integer canvas: every contribution is a finite integer (no truncation on the way); sum
+on a boolean canvas: every contribution is finite and not negative; mean on an integer or boolean canvas
+raises -/
+def hypD (cdt : DT) (m : Mode) (arrs : List ArrE) (p : Idx) : Bool :=
+  let cs := contribsE arrs p
+  match m, cdt with
+  | .replace, _ => true
+  | .sum, .i8 => cs.all EV.intVal
+  | .sum, .b1 => cs.all EV.nonnegVal
+  | .mean, .i8 => false
+  | .mean, .b1 => false
+  | _, _ => !(sumE cs).isNan
+
+/-! ### the whole function -/
+
+/-- dtype of `arrays[0]` -/
+def canvasOf : List ArrE → DT
+  | [] => .f8
+  | a :: _ => a.dt
+
+/-- the exception class an integer / boolean canvas makes the code raise, if any -/
+def raisesD (cdt : DT) (m : Mode) (fill : EV) : Option String :=
+  match cdt with
+  | .i8 =>
+    if m ≠ .replace ∧ fill = .nan then some "ValueError"
+    else if m ≠ .replace ∧ (fill = .pinf ∨ fill = .ninf) then some "OverflowError"
+    else if m = .mean then some "TypeError"
+    else none
+  | .b1 => if m = .mean then some "TypeError" else none
+  | _ => none
+
+def normaliseE (ndim : Nat) (arrs : List ArrE) : List ArrE :=
+  let mo := minOffset ndim (arrs.map ArrE.bare)
+  arrs.map (fun a => { a with off := sub a.off mo })
+
+/-- `overlap_arrays` on images with dtypes: the exception class, or the dtype, the shape and the pixels
+(row-major) of the result; `spc`: the specification `specD` instead of the mechanism -/
+def overlapD (spc : Bool) (m : Mode) (fill : EV) (ndim : Nat) (arrs : List ArrE) :
+    Except String (DT × List Int × List EV) :=
+  let cdt := canvasOf arrs
+  match raisesD cdt m fill with
+  | some e => .error e
+  | none =>
+    let n := normaliseE ndim arrs
+    let sh := newShape ndim (n.map ArrE.bare)
+    .ok (cdt, sh, (allIdx (sh.map Int.toNat)).map
+      (fun p => if spc then specD cdt m fill n p else mechD cdt m fill n p))
+
+/-- the value of the plain model as an extended value -/
+def embed : V → EV
+  | none => .nan
+  | some x => .fin x
+
+/-- an image of the plain model as an image of dtype `dt` -/
+def Arr.toE (dt : DT) (a : Arr) : ArrE := { off := a.off, shape := a.shape, dt := dt, get := fun i => embed (a.get i) }
 
 end Pew.Overlap
